@@ -7,13 +7,15 @@ import (
 
 //verif:pkg ./stream
 // VerifStreamMerge args: inputs k, items per input, error position on input 0 (-1 none),
-//                       consumer closes after this many results (-1: reads to the end)
-//verif:case C12,C09 quick VerifStreamMerge 0 0 -1 -1
-//verif:case C12,C09 quick VerifStreamMerge 1 0..2 -1..1 -1
-//verif:case C12,C09 quick VerifStreamMerge 2 0..1 -1..0 -1
-//verif:case C12,C09 thorough VerifStreamMerge 2 1 1 -1
-//verif:case C12,C09 quick VerifStreamMerge 1..2 1 -1 0..1
-//verif:case C12,C09 thorough VerifStreamMerge 3 0 -1..0 -1
+//                       consumer closes after this many results (-1: reads to the end),
+//                       kind of error (0 a plain error, 1 context.Canceled itself, 2 an error wrapping context.Canceled)
+//verif:case C12,C09 quick VerifStreamMerge 0 0 -1 -1 0
+//verif:case C12,C09 quick VerifStreamMerge 1 0..2 -1..1 -1 0
+//verif:case C12,C09 quick VerifStreamMerge 2 0..1 -1..0 -1 0
+//verif:case C12,C09,C08 quick VerifStreamMerge 1..2 1 0..1 -1 1..2
+//verif:case C12,C09 thorough VerifStreamMerge 2 1 1 -1 0
+//verif:case C12,C09 quick VerifStreamMerge 1..2 1 -1 0..1 0
+//verif:case C12,C09 thorough VerifStreamMerge 3 0 -1..0 -1 0
 //verif:case C12,C09 quick VerifStreamMergeBlocked 1..2
 
 // vBlockSrc: an input whose Next blocks until its context is cancelled.
@@ -29,8 +31,19 @@ func (s *vBlockSrc) Close() { s.closes++ }
 
 // VerifStreamMerge: k instrumented inputs of n items each (input 0 optionally fails with E at
 // position errPos); the main goroutine consumes, optionally closing the output early.
-func VerifStreamMerge(k int, n int, errPos int, closeAfter int) {
+type vWrapped struct{ inner error }
+
+func (w vWrapped) Error() string { return "wrapped: " + w.inner.Error() }
+func (w vWrapped) Unwrap() error { return w.inner }
+
+func VerifStreamMerge(k int, n int, errPos int, closeAfter int, errKind int) {
 	E := errors.New("E")
+	switch errKind {
+	case 1:
+		E = context.Canceled // the input's own error, nothing has been cancelled
+	case 2:
+		E = vWrapped{context.Canceled}
+	}
 	srcs := make([]*vSrc, k)
 	ins := make([]Stream[int], k)
 	for i := range srcs {
